@@ -14,6 +14,8 @@
 //!             transport polling in between; with derr/loss the driver detects an error of its own: after the
 //!             second call for ccs (control stream closed), c2s (second SETTINGS), cms (first control frame is
 //!             not SETTINGS), a lost transport; after the fourth for cid (GOAWAY with a larger id))
+//!             (2cs second control stream, cfe malformed control frame, client cpp MAX_PUSH_ID: like ccs; client cbi a
+//!             server-initiated bidi stream: after the third call)
 //!   np      : number of scheduled driver polls (the second only if the first returned Pending); EVERY driver
 //!             poll of a case (set-up, scheduled, later) gets a waker of its own
 //!   closing : before the scheduled phase the connection is already shutting down (peer GOAWAY processed by the
@@ -39,7 +41,7 @@
 //!   shutdown(1) (the transport still takes writes unless the case lost it), the transport is
 //!   lost (code 999 unless the case already lost it), s2 = every stream handle that still exists reads (SendRequest:
 //!   send_request again), s3 = ... writes (send_data), d4 = the driver calls shutdown(0) (the GOAWAY write fails),
-//!   d3 = driver polled a last time, close = codes of all OpenStreams::close calls before the handles are dropped.
+//!   d3 = driver polled a last time (drv=full: through server accept() / client wait_idle()), close = codes of all OpenStreams::close calls before the handles are dropped.
 //!   `err harness-timeout` if a schedule does not finish.
 //! Which harness: threads + baton (not the single-threaded fallback).
 use bytes::Bytes;
@@ -312,6 +314,28 @@ fn poll_driver(d: &mut Driver, full: bool) -> (String, Arc<Flag>) {
         },
     };
     (r, flag)
+}
+
+/// the last driver poll goes through the documented API: server accept() / client wait_idle()
+fn poll_driver_api(d: &mut Driver, full: bool) -> String {
+    if !full {
+        return poll_driver(d, full).0;
+    }
+    let flag = new_flag();
+    let waker = Waker::from(flag);
+    let mut cx = Context::from_waker(&waker);
+    match d {
+        Driver::Srv(c) => match poll_once(c.accept(), &mut cx) {
+            Poll::Pending => "pending".into(),
+            Poll::Ready(Ok(Some(_))) => "ok".into(),
+            Poll::Ready(Ok(None)) => "none".into(),
+            Poll::Ready(Err(e)) => conn_err(&e),
+        },
+        Driver::Cli(c, _) => match poll_once(c.wait_idle(), &mut cx) {
+            Poll::Pending => "pending".into(),
+            Poll::Ready(e) => conn_err(&e),
+        },
+    }
 }
 
 fn driver_shutdown(d: &mut Driver, n: usize) -> String {
@@ -677,6 +701,21 @@ fn run_case(c: &Case, pool: &mut Pool) -> String {
             ev(&w, &format!("{}:c:00070100", ctl));
         }
         "cid" => ev(&w, &format!("{}:c:070100070104", ctl)),
+        // a second control stream / a malformed frame on the control stream
+        "2cs" => {
+            ev(&w, &format!("U{}", ctl + 4));
+            ev(&w, &format!("{}:c:00", ctl + 4));
+        }
+        "cfe" => ev(&w, &format!("{}:c:07020000", ctl)),
+        // client only: MAX_PUSH_ID on the control stream / a server-initiated bidirectional stream
+        "cpp" => {
+            assert!(!c.server, "driver: derr=cpp is a client case");
+            ev(&w, "3:c:0d0100");
+        }
+        "cbi" => {
+            assert!(!c.server, "driver: derr=cbi is a client case");
+            ev(&w, "B1");
+        }
         x => panic!("driver: unknown derr {}", x),
     }
     match c.loss.as_str() {
@@ -786,7 +825,7 @@ fn run_case(c: &Case, pool: &mut Pool) -> String {
         }
     }
     let d4 = driver_shutdown(&mut driver, 0);
-    let (d3, _) = poll_driver(&mut driver, c.full);
+    let d3 = poll_driver_api(&mut driver, c.full);
     let closes: Vec<String> = {
         let g = w.lock().unwrap();
         g.log
